@@ -53,7 +53,7 @@ pub fn property(id: &str) -> Option<PropertyRun> {
         },
         "C16" => PropertyRun {
             id: id.into(),
-            parts: vec![Box::new(Campaign(c16::C16)), Box::new(FuzzPart { target: "pipeline", runs_thorough: 25_000 })],
+            parts: vec![Box::new(Campaign(c16::C16)), Box::new(Campaign(c16::RawBytes)), Box::new(FuzzPart { target: "pipeline", runs_thorough: 25_000 })],
             assumptions: vec!["in-process stages run on 512 MB stacks under catch_unwind; stack exhaustion can only be observed through the real binary (sampled), nesting is capped at 60 per mutation in the campaign".into(), "a hang is a run of the real binary that exceeds 60 s twice on an input of at most 6 KB".into()],
         },
         "C17" => PropertyRun {
